@@ -364,6 +364,17 @@ def main(prop, runner):
     ap.add_argument("--tier", default=os.environ.get("VERIF_TIER", "quick"), choices=["quick", "thorough"])
     ap.add_argument("--replay", default=None)
     args = ap.parse_args(sys.argv[2:])
+    if args.replay:
+        # a replay file records seed and tier; all drivers are seeded and deterministic, so re-running the check
+        # with them re-executes the recorded history / behaviour / schedule against the current tree
+        try:
+            rec = json.load(open(args.replay))
+            os.environ["VERIF_SEED"] = str(rec.get("seed", seed()))
+            args.tier = rec.get("tier", args.tier)
+            log("replaying %s: seed %s, tier %s; recorded finding: %s" % (args.replay, rec.get("seed"), args.tier, str(rec.get("what"))[:300]))
+        except (OSError, ValueError) as e:
+            log("cannot read replay file: %s" % e)
+            sys.exit(2)
     try:
         code = runner(args.tier, args.replay)
     except Inconclusive as e:
